@@ -179,7 +179,7 @@ def stage_wsdl(p, full_matrix=True, restr=False):
             cred_lit = "None" if cred is None else f"Some(({rust_str(cred[0])}.to_string(), {rust_str(cred[1])}.to_string()))"
             L.append(f"    {{ set_script(&sh, {status}, {rust_str(docs[bodykey])}, {mode}); let svc = g::{svc_name}::new({cred_lit}); let req = {req_lit};")
             L.append(f"      let r = rt.block_on(async {{ tokio::spawn(async move {{ svc.{method}(req).await }}).await }}); /*SEND:{opid}:spawn*/")
-            L.append("      let outcome = match r { Ok(Ok(v)) => { let d = format!(\"{:?}\", v); format!(\"\\\"result\\\":\\\"value\\\",\\\"debug_eq\\\":{},\\\"debug\\\":{}\", d == expected_dbg, js(&d)) }")
+            L.append("      let outcome = match r { Ok(Ok(v)) => { let d = format!(\"{:?}\", v); format!(\"\\\"result\\\":\\\"value\\\",\\\"debug_eq\\\":{},\\\"debug\\\":{},\\\"expected_debug\\\":{}\", d == expected_dbg, js(&d), js(if d == expected_dbg { \"\" } else { &expected_dbg })) }")
             L.append("        Ok(Err(e)) => format!(\"\\\"result\\\":\\\"error\\\",\\\"kind\\\":\\\"{}\\\",\\\"msg\\\":{}\", err_kind(&e), js(&e.to_string())),")
             L.append("        Err(_) => \"\\\"result\\\":\\\"join-error\\\"\".to_string() };")
             L.append(f"      report(&sh, {rust_str(sid)}, \"{opid}\", outcome); }}")
@@ -339,7 +339,10 @@ def judge(p, events, meta, svc_name):
                 if expect != "value":
                     p.finding("value-for-failure", **ctx)
                 elif m["two_way"] and not c.get("debug_eq"):
-                    p.finding("response-value", **ctx, debug=c.get("debug", "")[:300])
+                    a, b = c.get("debug", ""), c.get("expected_debug", "")
+                    k = next((i for i, (x, y) in enumerate(zip(a, b)) if x != y), min(len(a), len(b)))
+                    p.finding("response-value", **ctx, debug=a[:300], first_difference={"at": k, "actual": a[max(0, k - 60):k + 80],
+                                                                                        "expected": b[max(0, k - 60):k + 80]})
             elif c.get("result") == "error":
                 if expect == "value":
                     p.finding("error-for-success", **ctx)
